@@ -27,6 +27,8 @@ import (
 )
 
 var scopes = []string{"reg.io/a", "reg.io/a/b", "reg.io/a/b/c", "reg.io/ab", "reg.io/a-b", "reg.io/a_b", "reg.io/a.b", "REG.io/a", "reg.io:5000/a", "localhost/a", "reg.io/b", "reg.io.evil.com/a", "sub.reg.io/a", "reg.io/a/a", "reg.io/net--monitor", "reg.io/a---b/c",
+	// a port is part of the registry name: the default HTTPS / HTTP ports spelled out name other strings than the bare host
+	"reg.io:443/a", "reg.io:80/a", "reg.io:443/ab", "localhost:443/a",
 	// long but perfectly legal repository paths (190, 255 and 300 characters; nothing limits the length of a scope), and a near miss
 	"reg.io/" + strings.Repeat("a", 183), "reg.io/" + strings.Repeat("a", 184), "reg.io/team/" + strings.Repeat("sub/", 60) + "app", "reg.io/" + strings.Repeat("b", 293)}
 
@@ -39,7 +41,7 @@ var extraPaths = []refPath{
 	{"reg.io/a/", false}, {"reg.io/A", false}, {"reg.io", false}, {"reg.io/a/b/c/d", true}, {"reg.i/a", true}, {"eg.io/a", true},
 	{"reg.io/a:tag", false}, {"other.io/x", true}, {"reg.io/", false}, {"/a", false}, {"reg.io//a", false}, {"reg.io/a*", false},
 	{"*", false}, {"", false}, {"reg.io/a ", false}, {" reg.io/a", false}, {"reg.io/a/b/", false}, {"reg.io/a/bc", true}, {"reg.io/aa", true},
-	{"reg.io:5000/a/b", true}, {"reg.io:50000/a", true}, {"localhost/a/b", true}, {"Reg.io/a", true},
+	{"reg.io:5000/a/b", true}, {"reg.io:50000/a", true}, {"reg.io:443/b", true}, {"reg.io:443/a/b", true}, {"reg.io:80/b", true}, {"reg.io:4430/a", true}, {"localhost/a/b", true}, {"Reg.io/a", true},
 	// a well-formed host[:port] followed by something else before the first slash is not a registry
 	{"reg.io:5000x/a", false}, {"reg.io:/a", false}, {"reg.io:5000:5001/a", false}, {"reg.io./a", false}, {"reg.io-/a", false}, {"reg.io_5000/a", false},
 	{"reg.io?x=1/a", false}, {"reg.io@evil.example/a", false}, {"reg.io /a", false}, {"reg.io:5000 /a", false},
@@ -98,7 +100,7 @@ func scribbleStrings(s []string) {
 
 func main() {
 	r := lib.Start("C08", "exploration")
-	r.Rule = "PRNG-generated valid OCI documents (1-4 statements over an 18-scope near-miss alphabet (incl. paths of 190-300 characters), optional wildcard/skip statement) x all statement permutations x a 42-path reference alphabet x {digest, none, tag, tag+digest, doubled @} suffixes; blob documents x name alphabet; distinct by (document, permutation, reference); non-trivial = selection succeeds"
+	r.Rule = "PRNG-generated valid OCI documents (1-4 statements over an 22-scope near-miss alphabet (incl. paths of 190-300 characters), optional wildcard/skip statement) x all statement permutations x a 42-path reference alphabet x {digest, none, tag, tag+digest, doubled @} suffixes; blob documents x name alphabet; distinct by (document, permutation, reference); non-trivial = selection succeeds"
 	r.Rule += "; plus notation.Verify over a repository (artifact signed / unsigned / unresolvable) with the library's verifier and a forwarding-only wrapper, sha384/sha512 references, malformed registry parts, and 16 goroutines sharing one verifier"
 	r.Assumptions = []string{"validity of each reference path in the alphabet is tagged by construction from the distribution grammar, not recomputed",
 		"whitespace-only blob policy names are excluded (the statement does not say whether they count as 'no name')"}
@@ -251,6 +253,94 @@ func main() {
 				}
 			}
 		}
+	}, r.PanicViolation("OCIDocument.GetApplicableTrustPolicy"))
+
+	// ---- 1b. a document that was validated once and is then edited in place (statements reversed, a scope moved to
+	// another statement, a scope added, a statement prepended - each edit leaves a valid document): the selection follows
+	// the document as it IS, whatever Validate may have noted about it earlier
+	lib.Parallel(len(docs), 16, func(di int) {
+		d := docs[di]
+		pd := deepCopy(&trustpolicy.OCIDocument{Version: "1.0", TrustPolicies: d.st})
+		if err := pd.Validate(); err != nil {
+			panic(fmt.Sprintf("harness bug: generated document invalid: %v", err))
+		}
+		owner := map[string]string{}
+		for k, v := range d.owner {
+			owner[k] = v
+		}
+		wild := d.wild
+		ask := func(edit string) {
+			for _, p := range paths {
+				ref := p.path + digestSuffix
+				want := ""
+				if p.valid {
+					want = wild
+					if o, ok := owner[p.path]; ok {
+						want = o
+					}
+				}
+				got, err := pd.GetApplicableTrustPolicy(ref)
+				gotName := ""
+				if err == nil && got != nil {
+					gotName = got.Name
+				}
+				r.Eval(fmt.Sprintf("edited|%d|%s|%s", di, edit, ref))
+				r.Event("selections-on-a-document-edited-after-validation")
+				if gotName != want {
+					r.Violation(map[string]string{"kind": "selection", "want_empty": fmt.Sprint(want == ""), "got_empty": fmt.Sprint(gotName == ""), "edited": edit},
+						fmt.Sprintf("after the validated document was edited in place (%s), reference %q selected statement %q, the document says %q (err=%v)", edit, ref, gotName, want, err),
+						map[string]any{"document": json.RawMessage(docJSON(pd)), "reference": ref})
+					return
+				}
+			}
+		}
+		// reversed in place
+		for i, j := 0, len(pd.TrustPolicies)-1; i < j; i, j = i+1, j-1 {
+			pd.TrustPolicies[i], pd.TrustPolicies[j] = pd.TrustPolicies[j], pd.TrustPolicies[i]
+		}
+		ask("statements reversed")
+		// a scope moves from one statement to another
+		var scoped []int
+		for i, st := range pd.TrustPolicies {
+			if st.Name != wild {
+				scoped = append(scoped, i)
+			}
+		}
+		if len(scoped) >= 2 {
+			a, b := &pd.TrustPolicies[scoped[0]], &pd.TrustPolicies[scoped[1]]
+			if len(a.RegistryScopes) >= 2 {
+				sc := a.RegistryScopes[0]
+				a.RegistryScopes = append([]string(nil), a.RegistryScopes[1:]...)
+				b.RegistryScopes = append(append([]string(nil), b.RegistryScopes...), sc)
+				owner[sc] = b.Name
+				ask("scope moved to another statement")
+			}
+		}
+		// a new scope is added to an existing statement
+		if len(scoped) >= 1 {
+			a := &pd.TrustPolicies[scoped[len(scoped)-1]]
+			for _, sc := range scopes {
+				if _, taken := owner[sc]; !taken {
+					a.RegistryScopes = append(append([]string(nil), a.RegistryScopes...), sc)
+					owner[sc] = a.Name
+					break
+				}
+			}
+			ask("scope added")
+		}
+		// a statement is prepended
+		for _, sc := range scopes {
+			if _, taken := owner[sc]; !taken {
+				pd.TrustPolicies = append([]trustpolicy.OCITrustPolicy{{Name: "prepended", RegistryScopes: []string{sc}, SignatureVerification: trustpolicy.SignatureVerification{VerificationLevel: "strict"}, TrustStores: []string{"ca:prepended"}, TrustedIdentities: []string{"*"}}}, pd.TrustPolicies...)
+				owner[sc] = "prepended"
+				break
+			}
+		}
+		ask("statement prepended")
+		if err := pd.Validate(); err != nil {
+			panic(fmt.Sprintf("harness bug: edited document invalid: %v %s", err, docJSON(pd)))
+		}
+		ask("validated again")
 	}, r.PanicViolation("OCIDocument.GetApplicableTrustPolicy"))
 
 	// ---- 2. through verifier.Verify: the statement applied is observed from the store consulted
